@@ -189,7 +189,7 @@ Proof.
   match goal with |- framed _ (if ?b then _ else _) => destruct b end. framed_leaf.
   match goal with |- framed _ (if ?b then _ else _) => destruct b end. framed_leaf.
   unfold script_code. destruct (e_cb e0); [|framed_leaf].
-  match goal with |- context [multisig_fad ?a ?b0 ?s] => destruct (multisig_fad a b0 s) as [code fadfail] end.
+  match goal with |- context [multisig_fad ?a ?k0 ?b0 ?s] => destruct (multisig_fad a k0 b0 s) as [code fadfail] end.
   destruct fadfail. framed_leaf.
   match goal with |- context [multisig_loop ?ls ?fu ?cc ?ee ?co ?a1 ?a2 ?a3 ?a4] =>
     pose proof (multisig_loop_framed fu ee co a1 a2 a3 a4) as HL; cbv zeta in HL;
